@@ -123,6 +123,13 @@ func Main(args []string) int {
 		return cmdReplay(args[1:])
 	case "selftest":
 		return cmdSelftest(args[1:])
+	case "baseline":
+		if err := WriteBaselineFile(); err != nil {
+			fmt.Fprintln(os.Stderr, err)
+			return 2
+		}
+		fmt.Println("wrote", baselinePath())
+		return 0
 	}
 	fmt.Fprintln(os.Stderr, "unknown command", args[0])
 	return 2
